@@ -14,9 +14,17 @@ package main
 // WAL / ingest buffer (recorders).
 //
 // Two configurations, never mixed inside one run:
-//   passive     — clean wire, unlimited socket buffers, no stalls. Any
-//                 connection drop, any lost/duplicated/reordered entry is a
-//                 violation.
+//   passive     — untampered wire, unlimited socket buffers, no node stalls.
+//                 Any connection drop, any lost/duplicated/reordered entry is
+//                 a violation. Part of these runs are "delay-only": a few
+//                 frames reach the far end in pieces with a pause in between
+//                 (WireStall in wire.go; milliseconds up to a couple of
+//                 minutes, always inside the freshness window of the stream's
+//                 replay defence, so a polling read deadline can expire
+//                 anywhere inside a frame). The bytes arrive complete and in
+//                 order and the writer's sends never block (its write timeout
+//                 stays unreachable), so the connection is as healthy as an
+//                 idle one and the same demands apply.
 //   adversarial — frame-level adversary, latency, slow reader, half-open
 //                 connections. Disconnects are expected; judged are only the
 //                 apply-side safety clauses, plus: a connection the adversary
@@ -82,6 +90,8 @@ type C24Plan struct {
 	DialFail       []int       `json:"dial_fail,omitempty"`
 	StallWriterMs  int         `json:"stall_writer_ms,omitempty"`
 	StallAtUs      int64       `json:"stall_at_us,omitempty"`
+	// passive configuration only: pure delay faults (frames delivered in pieces)
+	Stalls []WireStall `json:"stalls,omitempty"`
 	// LogYield: every log line a node emits is a scheduling point (false in
 	// replay files that predate the knob: they keep their schedule).
 	LogYield bool `json:"log_yield,omitempty"`
@@ -158,6 +168,7 @@ func genC24(r *simrt.Rand, tier string) any {
 		p.Mode = "adversarial"
 	}
 	idle := r.Chance(6)
+	stalls := r.Chance(30)
 	p.LogYield = r.Chance(85)
 	// debugging aid: pin the configuration (the plan in a replay file is
 	// self-contained, so replays do not depend on this)
@@ -168,6 +179,8 @@ func genC24(r *simrt.Rand, tier string) any {
 		p.Mode = "adversarial"
 	case "idle":
 		p.Mode, idle = "passive", true
+	case "stalls":
+		p.Mode, stalls = "passive", true
 	}
 	p.Checkpoint = []int{0, 1, 1, 2, 3, 4, 5, 6, 7, 8}[r.Intn(10)]
 	p.AckMs = []int{5, 100, 100, 1000}[r.Intn(4)]
@@ -200,6 +213,9 @@ func genC24(r *simrt.Rand, tier string) any {
 			if p.AckMs < 100 {
 				p.AckMs = 100
 			}
+		}
+		if stalls {
+			genStalls(r, p)
 		}
 		return p
 	}
@@ -250,6 +266,49 @@ func genC24(r *simrt.Rand, tier string) any {
 		p.StallAtUs = int64(r.Intn(200000))
 	}
 	return p
+}
+
+// genStalls adds the delay-only faults of a passive run: one to three frames
+// of the established stream (never the handshake frame, index 0 of either
+// direction, which the protocol bounds with its own short deadlines) arrive in
+// two to four pieces. The pauses span milliseconds to about two minutes
+// (log-uniform; the wire caps the total delay, see simNet.maxDelayNs); most
+// stalls also outlast whatever read deadline the receiving end has pending
+// when the first piece arrives.
+func genStalls(r *simrt.Rand, p *C24Plan) {
+	n := 1 + r.Intn(3)
+	long := false
+	for i := 0; i < n; i++ {
+		s := WireStall{Reader: r.Intn(p.Readers), Dir: 1}
+		s.Frame = 1 + []int{0, 0, 1, 1, 2, 3, 4, 5, 7, 9, 13, 19}[r.Intn(12)]
+		if r.Chance(25) {
+			s.Dir = 0 // an acknowledgement on its way to the writer
+			s.Frame = 1 + r.Intn(4)
+		}
+		ncuts := 1 + r.Intn(2)
+		if r.Chance(10) {
+			ncuts = 3
+		}
+		for j := 0; j < ncuts; j++ {
+			s.Cuts = append(s.Cuts, r.Intn(1000))
+			// log-uniform 1 ms .. ~130 s
+			ms := int64(1) << uint(r.Intn(17))
+			ms += r.Int63n(ms)
+			s.GapMs = append(s.GapMs, ms)
+			if ms >= 5000 {
+				long = true
+			}
+		}
+		sort.Ints(s.Cuts)
+		if r.Chance(65) {
+			s.PastDeadline = true
+			long = true
+		}
+		p.Stalls = append(p.Stalls, s)
+	}
+	if long && p.AckMs < 100 {
+		p.AckMs = 100 // keeps the number of simulated ticker steps during a long stall bounded
+	}
 }
 
 // ---------------------------------------------------------------------------
@@ -373,6 +432,15 @@ func (st *c24run) body(dir string) {
 		for _, d := range p.DialFail {
 			st.net.dialFail[d] = true
 		}
+	}
+	if p.Mode == "passive" {
+		st.net.stalls = p.Stalls
+		// A checkpoint carries a timestamp and the reader refuses one that is
+		// older than the freshness window it is given (replay defence): a frame
+		// delayed beyond that window is no longer "only late". The window is
+		// taken from the code under check (the value the receive loop passes to
+		// the validator); delay faults use at most half of it.
+		st.net.maxDelayNs = int64(security.HMACTimestampTolerance) / 2
 	}
 	st.wlog = &logSink{yield: p.LogYield}
 	wlogger := zerolog.New(st.wlog)
@@ -618,9 +686,33 @@ func (st *c24run) body(dir string) {
 		step = time.Duration(p.ReconnectMs)*time.Millisecond + 300*time.Millisecond
 		iters = 6
 	}
+	// delay-only faults: pieces still in flight (the pause of a stalled frame
+	// is not idleness)
+	inflightUntil := func() int64 {
+		var until int64
+		if p.Mode != "passive" || len(p.Stalls) == 0 {
+			return 0
+		}
+		for _, l := range st.net.links {
+			if !l.open() {
+				continue
+			}
+			for _, h := range l.half {
+				for _, f := range h.q {
+					if f.at > until {
+						until = f.at
+					}
+				}
+			}
+		}
+		return until
+	}
 	prev := progress()
 	for i := 0; i < iters; i++ {
 		simrt.Sleep(step)
+		if until := inflightUntil(); until > simrt.SimNow() {
+			simrt.Sleep(time.Duration(until - simrt.SimNow()))
+		}
 		cur := progress()
 		if cur == prev && drained() {
 			st.quiesced = true
@@ -850,8 +942,14 @@ func judgeC24(st *c24run, out *simkit.Outcome) {
 				reason := "n/a"
 				if l.closedBy == "reader" {
 					reason = dropReason(rs.log.lines)
-					if reason == "no-reason-logged" && l.ends[0].midTO > 0 {
-						reason = "after-read-deadline-expired-mid-frame"
+					if l.ends[0].midTO > 0 {
+						// circumstance: a read deadline of the reader had expired
+						// part-way through a frame on this connection
+						if reason == "no-reason-logged" {
+							reason = "after-read-deadline-expired-mid-frame"
+						} else {
+							reason += ".after-read-deadline-expired-mid-frame"
+						}
 					}
 					if reason == "sequence-not-advancing" && wireSeqReuse(l) {
 						reason += ".writer-numbered-two-entries-alike"
@@ -959,7 +1057,11 @@ func runC24(planAny any, cfg simrt.Config) *simkit.Outcome {
 	}
 	out.Stats["probe.checkpoints_sent"] += int64(cps)
 	out.Stats["mode."+mode]++
-	for _, k := range []string{"probe.read_deadline_expired", "probe.read_deadline_expired_mid_frame"} {
+	if st.net.stalled > 0 {
+		out.Stats["probe.run_with_frame_in_pieces"]++
+		out.Stats["probe.frames_in_pieces"] += int64(st.net.stalled)
+	}
+	for _, k := range []string{"probe.read_deadline_expired", "probe.read_deadline_expired_mid_frame", "probe.read_deadline_expired_mid_payload"} {
 		if v := res.Stats[k]; v > 0 {
 			out.Stats[k+"."+mode] += v
 		}
@@ -1017,6 +1119,17 @@ func shrinkC24(planAny any) []any {
 		i := i
 		add(func(q *C24Plan) bool { q.Faults = append(q.Faults[:i], q.Faults[i+1:]...); return true })
 	}
+	for i := range p.Stalls {
+		i := i
+		add(func(q *C24Plan) bool { q.Stalls = append(q.Stalls[:i], q.Stalls[i+1:]...); return true })
+		if len(p.Stalls[i].Cuts) > 1 {
+			add(func(q *C24Plan) bool {
+				x := &q.Stalls[i]
+				x.Cuts, x.GapMs = x.Cuts[:1], x.GapMs[:1]
+				return true
+			})
+		}
+	}
 	add(func(q *C24Plan) bool { ok := q.Readers > 1; q.Readers = 1; return ok })
 	add(func(q *C24Plan) bool { ok := q.Early; q.Early = false; return ok })
 	add(func(q *C24Plan) bool { ok := q.Checkpoint != 0; q.Checkpoint = 0; return ok })
@@ -1073,7 +1186,11 @@ func descC24(planAny any) any {
 		kinds = append(kinds, fmt.Sprintf("%s@r%d/c%d/d%d#%d", f.Kind, f.Reader, f.Conn, f.Dir, f.Frame))
 	}
 	sort.Strings(kinds)
-	return map[string]any{"mode": p.Mode, "readers": p.Readers, "writers": len(p.Writers), "ops": ops, "buffer_size": p.BufferSize,
+	var stalls []string
+	for _, x := range p.Stalls {
+		stalls = append(stalls, fmt.Sprintf("r%d/c%d/d%d#%d cuts=%v gap_ms=%v past_deadline=%v", x.Reader, x.Conn, x.Dir, x.Frame, x.Cuts, x.GapMs, x.PastDeadline))
+	}
+	return map[string]any{"stalls": stalls, "mode": p.Mode, "readers": p.Readers, "writers": len(p.Writers), "ops": ops, "buffer_size": p.BufferSize,
 		"checkpoint": p.Checkpoint, "early": p.Early, "faults": kinds, "latency_us": p.LatencyUs, "conn_cap": p.ConnCap,
 		"apply_delay_us": p.ApplyDelayUs, "reconnect_ms": p.ReconnectMs, "log_yield": p.LogYield}
 }
